@@ -137,7 +137,10 @@ def exhaustive(tier):
             for gp in itertools.product(gaps, repeat=n):
                 for ov in ovs:
                     yield {"cls": "mux_packed", "p": {"sizes": list(sz), "gaps": list(gp), "ov": ov, "dw": 1}}
-    parts = [("mux_packed_3regs_sizes{1,2,3,5,6,7}_gaps0-3_ov{0,1,2}", gen(3, [0, 1, 2]))]
+    if tier == "quick":
+        parts = [("mux_packed_3regs_sizes{1,2,3,5,6,7}_gaps0-3_ov{1,2}", gen(3, [1, 2]))]
+    else:
+        parts = [("mux_packed_3regs_sizes{1,2,3,5,6,7}_gaps0-3_ov{0,1,2}", gen(3, [0, 1, 2]))]
     if tier == "thorough":
         parts.append(("mux_packed_4regs_sizes{1,2,3,5,6,7}_gaps0-3_ov{1,2}", gen(4, [1, 2])))
     return parts
